@@ -6,7 +6,7 @@ PROP = dict(
          'one consumer running 0..300 generated consume()/size()/empty() steps; after join + final consume the concatenated batches must be exactly '
          'the pushed items, each producer in order, nothing lost or duplicated, size() never above the total. TransactionalValue<T>: one producer '
          'assigning 1..N (N <= 300), one consumer looping update()/get(); every value seen was assigned, in order, update()==true iff get() moved '
-         'to a newer value, final value == N. Threads share only the object under test. Built with TSan (g++ -O1: any data race is a report) and '
+         'to a newer value, final value == N. Backlog: 1..4 producers x 1000..400000 items flat-out while the consumer only polls size()/empty() (monotone while nobody consumes) and drains at generated thresholds (pending storage up to several MiB). Bursts (one thread): k assignments then update(), k from {1,2,3,255..257,65535..65537,2^17,3*2^16,2^20; thorough 2^24, 2^32}. Threads share only the object under test. Built with TSan (g++ -O1: any data race is a report) and '
          'with ASan. non-trivial = the consumer obtained >= 2 non-empty batches while producers ran / observed >= 2 distinct values; distinct by case hash',
     floor=dict(quick=800, thorough=8000),
     confirm_replays=25,
